@@ -75,6 +75,8 @@ def main():
                 print(pid, rc, vio[0] if vio else "", flush=True)
         finally:
             sh("git -C /repo checkout -- .")
+            # the runs above rewrote evidence/<id>.json from the CHANGED tree: put the committed ones back
+            sh("git checkout -- " + " ".join(f"evidence/{p}.json" for p in checks), cwd=ROOT)
             rc, o = sh("git -C /repo status --porcelain")
             assert o.strip() == "", "/repo not restored: " + o
     report["checks"] = detected
